@@ -28,7 +28,7 @@ def shards(variant, monitor, n, args, **kw):
 prop("C19", level="exploration",
      title="Address arithmetic reports overflow instead of wrapping",
      technique="reference-model monitor: every checked/overflowing/align/bit/order operation of GuestAddress and MemoryRegionAddress compared with exact 128-bit arithmetic over an enumerated boundary cross product plus random 64-bit operands, in overflow-checked and unchecked builds",
-     rule="every check is instantiated twice per address type: with method-call syntax on the CONCRETE type (as user code reaches it - an inherent method shadowing the trait's would be the one checked) and generically through the Address trait. cases = (address type, operation, a, b) with a,b from the complete cross product of {0..16, 2^32+-16, 2^63+-16, 2^64-16..2^64-1} (99x99 pairs x 2 types), all 64 power-of-two alignments for each operand, plus seeded random 64-bit pairs (uniform, near-equal, near-complement, shifted); distinct key = (type, operation, boundary class of a, boundary class of b, outcome some/none/fit/wrap) and for align (type, class of a, k, outcome); all keys are non-trivial (each involves a boundary class or an outcome class)",
+     rule="all four build configurations of (debug assertions, overflow checks); every check is instantiated twice per address type: with method-call syntax on the CONCRETE type (as user code reaches it - an inherent method shadowing the trait's would be the one checked) and generically through the Address trait. cases = (address type, operation, a, b) with a,b from the complete cross product of {0..16, 2^32+-16, 2^63+-16, 2^64-16..2^64-1} (99x99 pairs x 2 types), all 64 power-of-two alignments for each operand, plus seeded random 64-bit pairs (uniform, near-equal, near-complement, shifted); distinct key = (type, operation, boundary class of a, boundary class of b, outcome some/none/fit/wrap) and for align (type, class of a, k, outcome); all keys are non-trivial (each involves a boundary class or an outcome class)",
      exhaustive_note="the 99x99 boundary cross product and all 64 alignments per operand are enumerated completely; the 64-bit space itself is sampled",
      assumptions=["u128/i128 arithmetic of rustc is the trusted oracle", "unchecked_* helpers are only judged where the exact result fits (documented to follow Rust overflow behaviour otherwise)"],
      level_text="Runtime oracle over an exhaustively enumerated boundary grid plus ~10^6 (quick) / 10^8 (thorough) random operand pairs in two build profiles; held-on-observed, not a proof over all 2^128 pairs.",
@@ -55,7 +55,7 @@ FLOORS["C19"] = {"evaluations": 500_000, "distinct_nontrivial": 500}
 # ----------------------------------------------------------------------------------------------
 prop("C20", level="exploration",
      title="Endian-tagged integers keep their declared byte order for every value",
-     technique="reference-model monitor: wrapper conversions, in-memory bytes, equality and inequality operators in all three pairings (wrapper/native, native/wrapper, wrapper/wrapper), clone, Into, Default and guest-memory wire format compared with std to_le_bytes/to_be_bytes; 16-bit types exhaustive, 32-bit exhaustive in the thorough tier, 64-bit structured + random",
+     technique="reference-model monitor: wrapper conversions, in-memory bytes, equality and inequality operators in all three pairings (wrapper/native, native/wrapper, wrapper/wrapper), clone, Into, Default, comparisons of two typed views of the SAME bytes, every byte-level view (as_slice, as_mut_slice, as_bytes, from_slice, write_all_to, read_exact_from, zeroed) and guest-memory wire format compared with std to_le_bytes/to_be_bytes; 16-bit types exhaustive, 32-bit exhaustive in the thorough tier, 64-bit structured + random",
      rule="cases = (wrapper, value, comparison partner) ; 16-bit wrappers: all 2^16 values x 5 partners (exhaustive); 32-bit: 2^24 structured + random (quick) / all 2^32 (thorough); 64-bit/size: every value with <=2 distinct byte values for 8 byte pairs, walking ones/zeros, byte position markers, palindromes + seeded random; memory-level write_obj/read_obj checks at unaligned offsets in a VolatileSlice and a GuestMemoryMmap; distinct key = (width, value pattern class / high byte / byte value at position, symmetric-under-byteswap?) - a key is non-trivial because each names a byte pattern whose byte order is observable",
      exhaustive_note="Le16/Be16: all 65536 values in every tier; Le32/Be32: all 2^32 values in the thorough tier",
      assumptions=["std's to_le_bytes/to_be_bytes define the wire format", "host is little-endian x86-64 (the big-endian host half of 'regardless of the host' cannot be executed here)"],
@@ -79,7 +79,7 @@ FLOORS["C20"] = {"evaluations": 10_000_000, "distinct_nontrivial": 1000}
 prop("C02", level="exploration",
      title="Guest address queries answer exactly according to the set of mapped regions",
      technique="reference-model monitor: every address query of GuestMemoryMmap and of a second trait implementation (MockMemory, default methods only) compared with an interval-set model; small universe enumerated completely, large layouts boundary-sampled; for the mmap collection the same queries are repeated on collections DERIVED from it (each region removed with remove_region, then re-inserted with insert_region), which must answer according to the derived layout",
-     rule="cases = (backend, layout, query, address, length). Exhaustive part: all layouts of 1..3 regions with sizes 1..4 inside [0,14) (8430 layouts) x 3 translations (at 0, ending at 2^64-2, ending at 2^64-1 [mock only]) x every address of the universe +-1 plus the opposite extreme x every length 0..16 plus usize::MAX, usize::MAX-1, 2^63. Random part: <=8 regions, sizes 1 B..1 MiB, holes 0 B..2^61, addresses at region edges +-2 and extremes, lengths from the boundary generator. Backends: mmap, mock, mmap-removed (one region removed: top / bottom / middle), mmap-reinserted. distinct key = (backend, query, answer class, position of the address relative to the nearest region edge, length-vs-run class, layout shape); non-trivial = the address is at/next to a region edge or in a hole (keys for addresses strictly inside/above/below everything are counted separately as trivial)",
+     rule="cases = (backend, layout, query, address, length). Exhaustive part: all layouts of 1..3 regions with sizes 1..4 inside [0,14) (8430 layouts) x 3 translations (at 0, ending at 2^64-2, ending at 2^64-1 [mock only]) x every address of the universe +-1 plus the opposite extreme x every length 0..16 plus usize::MAX, usize::MAX-1, 2^63. Random part: <=8 regions, sizes 1 B..1 MiB, holes 0 B..2^61, addresses at region edges +-2 and extremes, lengths from the boundary generator. Collections of 9..257 regions (lookup strategies may change with the count). OWNED anonymous regions of 2 MiB - 4 KiB .. 8 MiB (42 of them, kept alive so that placements differ): every route to a host pointer (get_host_address at both levels, get_slice at both levels, as_volatile_slice, as_ptr) agrees and a byte written through the interface is the byte at that pointer. Backends: mmap, mock, mmap-removed (one region removed: top / bottom / middle), mmap-reinserted. distinct key = (backend, query, answer class, position of the address relative to the nearest region edge, length-vs-run class, layout shape); non-trivial = the address is at/next to a region edge or in a hole (keys for addresses strictly inside/above/below everything are counted separately as trivial)",
      exhaustive_note="all 1..3-region layouts with region sizes 1..4 in a 14-byte universe, at three translations, all addresses and lengths of that universe",
      assumptions=["the interval-set model (models/layout.rs, 60 lines) is the specification", "check_range(b,0) and get_slice(a,0) at an unmapped address are recorded but not judged (vacuous for an empty range)", "mmap-backed regions in this monitor are build_raw views of a PROT_NONE reservation: only pointers are compared, bytes are never touched"],
      level_text="Complete enumeration of a small universe plus boundary-biased sampling of large layouts, with a model oracle on every answer; held-on-observed for the layouts/addresses actually queried.",
@@ -102,7 +102,7 @@ FLOORS["C02"] = {"judged_queries": 2_000_000, "distinct_nontrivial": 2000}
 prop("C09", level="exploration",
      title="The page bitmap behaves as a set of page numbers under every operation sequence",
      technique="reference-model monitor: AtomicBitmap (plus RefSlice/ArcSlice views, Option and unit bitmaps) stepped against a BTreeSet model with a full read-out of every observable after every operation; single operations enumerated completely on a small space, random operation sequences beyond; Miri pass in the thorough tier",
-     rule="cases = operation sequences on (byte_size, page_size). Exhaustive part: byte_size 0..20 x page in {1,2,3} x 4 structured initial states x every single operation with (start,len) in 0..22 x 0..22 (set/reset range), every bit index 0..22 (set/reset bit), get_and_reset, reset, clone, clone_from into a differently sized destination with every page dirty. Random part: sizes {0,1,p-1,p,p+1,63p..65p,127p..129p,<=10^4}, pages {1,2,3,5,7,64,100,128,4096,>size}, 30..300 operations incl. enlarge, clone, clone_from into a destination with fewer / equal / more 64-page words and another page size, nested slice_at views (RefSlice and ArcSlice) with wrapping offsets, ranges near usize::MAX. After every step: is_bit_set for 0..pages+130, is_addr_set/dirty_at at every page start/end and extremes, len, byte_size, clone().get_and_reset() words, clone independence. distinct key = (operation, page-size class, page-count class, range class, enlarge/clone depth); all keys non-trivial",
+     rule="cases = operation sequences on (byte_size, page_size). Exhaustive part: byte_size 0..20 x page in {1,2,3} x 4 structured initial states x every single operation with (start,len) in 0..22 x 0..22 (set/reset range), every bit index 0..22 (set/reset bit), get_and_reset, reset, clone, clone_from into a differently sized destination with every page dirty. Random part: sizes {0,1,p-1,p,p+1,63p..65p,127p..129p,<=10^4}, pages {1,2,3,5,7,64,100,128,4096,>size}, 30..300 operations incl. enlarge, clone, clone_from into a destination with fewer / equal / more 64-page words and another page size, construction through new / NewBitmap::with_len / Default, range starts and lengths of the form 2^k +- d for every k, one bitmap with 2^32 + 70 000 pages (marks, resets, single bits and slice views around index 2^32), nested slice_at views (RefSlice and ArcSlice) with wrapping offsets, ranges near usize::MAX. After every step: is_bit_set for 0..pages+130, is_addr_set/dirty_at at every page start/end and extremes, len, byte_size, clone().get_and_reset() words, clone independence. distinct key = (operation, page-size class, page-count class, range class, enlarge/clone depth); all keys non-trivial",
      exhaustive_note="every single range/bit operation with arguments <= 22 from 4 structured states for byte_size <= 20 and page size 1..3",
      assumptions=["BTreeSet model in mon_c09.rs is the specification (ranges running past usize::MAX saturate)"],
      level_text="Model-based runtime oracle with full read-out after every step over an exhaustively enumerated small space and thousands of random sequences; held-on-observed.",
@@ -129,7 +129,7 @@ FLOORS["C09"] = {"exhaustive_single_ops": 200_000, "distinct_nontrivial": 800}
 prop("C10", level="exploration",
      title="Adding or removing a region yields a new valid map and leaves the old one intact",
      technique="history monitor with a list model: from_arc_regions / insert_region / remove_region / clone / writes through shared regions; every map and region handle ever produced is kept alive and re-listed and fully re-read (library path and raw pointer) after every step; complete pairwise boundary grid; Miri pass in the thorough tier",
-     rule="cases = histories of 10..60 steps (insert of a fresh region with adjacency classes free/adjacent/gap-1/overlap-1/overlap-n/equal-start relative to an existing region, insert of an EXISTING handle - the very Arc the target map holds, or one removed from / refused by some map earlier -, remove with exact/size+-1/start+-1/last-byte/absent arguments, construction from shuffled/duplicated/empty lists of shared Arcs, clone, write through a shared region, drop of maps and handles) from random starting layouts incl. 1-byte regions and regions next to 2^64. Grid part (enumerated completely): region lengths {1,2,7,4096}^2 x distance prev-end..next-start in {-2..2} x both list orders for construction and both insertion directions; GuestRegionMmap::new with base+size in 2^64-2..2^64+2. distinct key = (step kind, outcome/error variant, adjacency class, maps-alive bucket); all non-trivial",
+     rule="cases = histories of 10..60 steps (insert of a fresh region with adjacency classes free/adjacent/gap-1/overlap-1/overlap-n/equal-start relative to an existing region, insert of an EXISTING handle - the very Arc the target map holds, or one removed from / refused by some map earlier -, regions that are private mappings of ONE shared file descriptor at coinciding / intersecting file ranges, empty starting collections, remove with exact/size+-1/start+-1/last-byte/absent arguments, construction from shuffled/duplicated/empty lists of shared Arcs, clone, write through a shared region, drop of maps and handles) from random starting layouts incl. 1-byte regions and regions next to 2^64. Grid part (enumerated completely): region lengths {1,2,7,4096}^2 x distance prev-end..next-start in {-2..2} x both list orders for construction and both insertion directions; GuestRegionMmap::new with base+size in 2^64-2..2^64+2. distinct key = (step kind, outcome/error variant, adjacency class, maps-alive bucket); all non-trivial",
      exhaustive_note="pairwise boundary grid (4x4 lengths x 5 distances x 2 orders / 2 directions) and the base+size bound at 2^64",
      assumptions=["list model in mon_c10.rs is the specification", "when a construction list is both unsorted and overlapping either error variant is accepted", "base+size == 2^64 is recorded, not judged"],
      level_text="Model-based history monitor with frame checks over all live maps after every step; held-on-observed.",
@@ -180,7 +180,7 @@ FLOORS["C01"] = {"chains_depth_ge2": 5000, "distinct_nontrivial": 3000}
 prop("C03", level="exploration",
      title="Guest memory reads and writes behave like one flat sparse byte array",
      technique="history monitor with a flat sparse byte-array model over the interval model: return values, error variants and PartialBuffer counts of every guest-level access are compared with the model, and every region, its mapping slack and its backing file are re-read through an independent path after every step; backends anonymous mmap, MAP_SHARED file, MockMemory (default trait methods, region ending at 2^64-1 plus region at 0), Xen-UNIX in the thorough tier; Miri/ASan passes",
-     rule="cases = histories of 20..200 mixed operations (write/read/write_slice/read_slice, write_obj/read_obj of 1..32-byte objects, atomic store/load, read_volatile_from/read_exact_volatile_from from slices and cursors of shorter/equal/longer length, write_volatile_to/write_all_volatile_to into a Vec, through short-reading / short-accepting streams, region-level buffer access and region-level stream transfers with counts {1..20, remaining, remaining+1, 2^63, usize::MAX, values whose sum with the offset overflows}) on layouts of 1..5 regions (now and then one longer than 64 KiB) (touching, 1-byte and large holes, at 0, next to / at the top of the address space) with start addresses at region edges +-2 and buffer lengths run-1, run, run+1, longer. distinct key = (operation, outcome class, number of regions crossed, position class of the start address, length-vs-run class, backend); all non-trivial",
+     rule="cases = histories of 20..200 mixed operations (write/read/write_slice/read_slice, write_obj/read_obj of 1..32-byte objects, atomic store/load, read_volatile_from/read_exact_volatile_from from slices and cursors of shorter/equal/longer length, write_volatile_to/write_all_volatile_to into a Vec, through short-reading / short-accepting streams, region-level buffer access and region-level stream transfers with counts {1..20, remaining, remaining+1, 2^63, usize::MAX, values whose sum with the offset overflows}) on layouts of 1..5 regions (now and then one longer than 64 KiB); direct try_access calls with full- and partial-progress callbacks; one region of 2 GiB + 8 KiB followed by an adjacent one, streamed out and in through a sparse stream that only looks at marker positions (around 0x7ffff000, 2^31, the region boundary), with sinks/sources that take everything or 1..1.5 GiB per call (touching, 1-byte and large holes, at 0, next to / at the top of the address space) with start addresses at region edges +-2 and buffer lengths run-1, run, run+1, longer. distinct key = (operation, outcome class, number of regions crossed, position class of the start address, length-vs-run class, backend); all non-trivial",
      assumptions=["flat byte-array model (models/world.rs) is the specification", "empty buffers are left to C18", "in-memory streams of the exact forms are at least `count` long (short/faulty streams are C14)"],
      level_text="Model-based history monitor with full-memory frame comparison after every step, three backends; held-on-observed.",
      level_note="Trusts the flat model and MockMemory's required methods; host pointers are read by the harness through raw volatile loads.",
@@ -207,7 +207,7 @@ FLOORS["C03"] = {"evaluations": 200_000, "distinct_nontrivial": 1000, "histories
 prop("C04", level="exploration",
      title="Every accessor of a volatile container moves exactly the bytes it names",
      technique="history monitor with a Vec<u8> model of one container: result, count and error of every byte/object/typed/array/copy/atomic accessor compared with the model; whole container, canaries, guard pages and mapping slack compared after every operation; cross-route re-reads; complete (length x src-alignment x dst-alignment) grid of the small-copy helper; Miri/ASan/memcheck passes",
-     rule="cases = histories of 50..300 operations on arena-backed slices (sizes 0..300, 4096; abutting guard pages or centred at every address mod 16) and MmapRegion containers, on the container or a derived sub-slice: write/read/write_slice/read_slice with 8 local-buffer alignments, write_obj/read_obj/get_ref store/load for 20 element types (1..16-byte integers, arrays, Le/Be wrappers), atomic store/load for 10 types, array refs (load/store/copy_to/copy_from/copy_to_volatile_slice/to_slice), element-wise copy_to/copy_from, slice-to-slice copies within (overlapping) and across containers, offsets inside/touching/crossing the end and huge. Grid (complete): lengths 0..24 x local alignment 0..7 x guest alignment 0..7 x {write, read, copy_from<u8>, copy_to<u8>} = 6400 cells. distinct key = (operation, element type, outcome, offset class, length class, alignment classes); all non-trivial",
+     rule="cases = histories of 50..300 operations on arena-backed slices (sizes 0..300, 4096; abutting guard pages or centred at every address mod 16) and MmapRegion containers, on the container or a derived sub-slice: write/read/write_slice/read_slice with 8 local-buffer alignments, write_obj/read_obj/get_ref store/load for 20 element types (1..16-byte integers, arrays, Le/Be wrappers), atomic store/load for 10 types, array refs (load/store/copy_to/copy_from/copy_to_volatile_slice/to_slice), element-wise copy_to/copy_from, slice-to-slice copies within (overlapping) and across containers, offsets inside/touching/crossing the end and huge. Grid (complete): lengths 0..24 x local alignment 0..7 x guest alignment 0..7 x {write, read, copy_from<u8>, copy_to<u8>} = 6400 cells. Big transfers: lengths 2^k-1, 2^k, 2^k+1 for k = 16..22, 3 MiB, 4 MiB(+1), 6 MiB, container length (+5) x offsets {0,1,4093} x 7 routes (write/read, write_slice/read_slice, copy_from/copy_to<u8>, copy_to_volatile_slice, stream in/out, array<u8> copies, copy_from/copy_to<u64>) on a 6 MiB + 13 B mapping. distinct key = (operation, element type, outcome, offset class, length class, alignment classes); all non-trivial",
      exhaustive_note="25 x 8 x 8 x 4 grid of the byte-copy helper (both sides of the 8-byte threshold, every alignment class)",
      assumptions=["Vec<u8> model in mon_c04.rs is the specification", "memmove semantics for overlapping slice-to-slice copies"],
      level_text="Model-based history monitor with frame comparison after every operation plus a completely enumerated copy grid; held-on-observed.",
@@ -235,7 +235,7 @@ def plan_c04(tier, seed):
 FLOORS["C04"] = {"grid_cells": 6400, "evaluations": 300_000, "distinct_nontrivial": 5000}
 
 # ----------------------------------------------------------------------------------------------
-_C0516_RULE = ("cases = histories of 30..120 operations on GuestMemoryMmap<B> with 1..3 (mostly adjacent) regions, page sizes {1,2,3,7,8,16,64,100,4096,size-1,size,size+1,2*size,random}, bitmap flavours AtomicBitmap (RefSlice views), Option<AtomicBitmap> (Some/None), an Arc-backed bitmap (ArcSlice views) and a PROBE bitmap implemented by the harness (own Bitmap / BitmapSlice types over an AtomicBitmap) that snapshots the bytes of the pages being marked at the moment of every mark. Write routes: write, write_slice, write_obj, VolatileRef::store, VolatileArrayRef::{store, copy_from, ref_at.store}, copy_from<T>, atomic store, slice->slice and array->slice copies, read_volatile_from/read_exact_volatile_from from &[u8], Cursor, File, a failing descriptor and a reader that fails after a partial fill - at slice level (through accessors reached by random derivation chains of depth 0..6 with non-aligned bases, incl. get_slice / to_slice / ref_at views), region level and guest-memory level (cross-region). Non-writing routes: reads, loads, copy_to, write_volatile_to / write_all_volatile_to into Vec, &mut [u8], a file and a descriptor whose write(2) FAILS (read-only), queries, derivations, pointer guards, rejected requests. Bitmap reset/reset_addr_range/get_and_reset/reset_bit interleaved. Payloads are the complement of the current contents. distinct key = (route, level, derivation depth, page-size class, page-straddle class of the range, bitmap flavour); all non-trivial")
+_C0516_RULE = ("cases = histories of 30..120 operations on GuestMemoryMmap<B> with 1..3 (mostly adjacent) regions, page sizes {1,2,3,7,8,16,64,100,4096,size-1,size,size+1,2*size,random}, bitmap flavours AtomicBitmap (RefSlice views), Option<AtomicBitmap> (Some/None), an Arc-backed bitmap (ArcSlice views) and a region of 4 GiB + 64 KiB with page size 1 (page indices beyond 2^32: writes at guest, region and slice level around index 2^32, partial reset, aliases at the low offsets watched), a PROBE bitmap implemented by the harness (own Bitmap / BitmapSlice types over an AtomicBitmap) that snapshots the bytes of the pages being marked at the moment of every mark. Write routes: write, write_slice, write_obj, VolatileRef::store, VolatileArrayRef::{store, copy_from, ref_at.store}, copy_from<T>, atomic store, slice->slice and array->slice copies, read_volatile_from/read_exact_volatile_from from &[u8], Cursor, File, a failing descriptor and a reader that fails after a partial fill - at slice level (through accessors reached by random derivation chains of depth 0..6 with non-aligned bases, incl. get_slice / to_slice / ref_at views), region level and guest-memory level (cross-region). Non-writing routes: reads, loads, copy_to, write_volatile_to / write_all_volatile_to into Vec, &mut [u8], a file and a descriptor whose write(2) FAILS (read-only), queries, derivations, pointer guards, rejected requests. Bitmap reset/reset_addr_range/get_and_reset/reset_bit interleaved. Payloads are the complement of the current contents. distinct key = (route, level, derivation depth, page-size class, page-straddle class of the range, bitmap flavour); all non-trivial")
 
 prop("C05", level="exploration",
      title="No tracked write leaves its pages clean (dirty tracking is sound)",
@@ -277,7 +277,7 @@ FLOORS["C16"] = {"ops_that_changed_bytes": 50_000, "distinct_nontrivial": 3000}
 prop("C07", level="exploration",
      title="Guest-controlled addresses and lengths can never crash the monitor",
      technique="crash monitor: every call of a 118-entry table of public access/query entry points runs under catch_unwind inside a forked child with an RLIMIT_CPU budget, with guest-chosen arguments from the full 64-bit boundary generators; a panic, a fatal signal or a runaway call is located by re-running the batch one call per child; identical call lists in the overflow-checked (debug) and unchecked (release) builds; Miri subset in the thorough tier",
-     rule="cases = (entry point, arguments a,b,c: usize and g,g2: u64 from the boundary generators {0..9, len+-9, 2^31, 2^32, isize::MAX+-1, 2^63, usize::MAX-9.., pointer-overflowing, region edges +-2, 2^64-16..}, environment) over containers {empty, 1 byte, 37 B at odd alignment, 300 B, 4096 B, 64 B} with bitmaps of page size {1,7,4096,>size}, GuestMemoryMmap layouts {single, region at 0 + region just below 2^64, 1-byte regions, adjacent+hole}, MockMemory layouts with a region ending at 2^64-1 and one at 0, AtomicBitmaps of 7 geometries. distinct key = (entry point, boundary class of a, of b, build profile) and (entry point, address class of g, profile); all non-trivial",
+     rule="cases = (entry point, arguments a,b,c: usize and g,g2: u64 from the boundary generators {0..9, len+-9, 2^31, 2^32, isize::MAX+-1, 2^63, usize::MAX-9.., pointer-overflowing, region edges +-2, 2^64-16..}, environment) over containers {empty, 1 byte, 37 B at odd alignment, 300 B, 4096 B, 64 B} with bitmaps of page size {1,7,4096,>size}, GuestMemoryMmap layouts {single, region at 0 + region just below 2^64, 1-byte regions, adjacent+hole}, MockMemory layouts with a region ending at 2^64-1 and one at 0, AtomicBitmaps of 7 geometries. Builds: all four combinations of (debug assertions, overflow checks). distinct key = (entry point, boundary class of a, of b, build profile) and (entry point, address class of g, profile); all non-trivial",
      assumptions=["the documented panics (VolatileArrayRef::ref_at/load/store with index >= len, checked_align_up with a non power of two, unchecked_* helpers) are not exercised", "non-termination is judged on child CPU time (RLIMIT_CPU 20 s for a batch that needs milliseconds), never on wall clock"],
      level_text="Runtime 'returns' oracle over 10^5 (quick) / 10^7 (thorough) calls per build profile with crash containment and exact witness location; held-on-observed.",
      level_note="A property of the form 'never crashes' is only sampled; the entry table and the generators are the coverage claim.",
@@ -309,7 +309,7 @@ FLOORS["C07"] = {"calls": 200_000, "distinct_nontrivial": 5000}
 prop("C13", level="exploration",
      title="Volatile stream adapters transfer data exactly like their std::io counterparts",
      technique="differential twin monitor: every ReadVolatile/WriteVolatile adapter call is mirrored live by the corresponding std::io call on an identical twin stream with an ordinary buffer; return value / error kind, landed bytes, remaining slice, cursor position, vector contents, file offset + contents and peer-received bytes are compared; arena canaries detect writes outside the given buffer; complete grid for the in-memory adapters",
-     rule="cases = (adapter, call sequence). Grid (complete): stream/sink length 0..20 x position {0,mid,len-1,len,len+1,u64::MAX-3,u64::MAX} x buffer length 0..20 x {up-to, exact} plus a second call, for &[u8], Cursor<&[u8]>, Cursor<Vec<u8>>, &mut [u8], Vec<u8>, Cursor<&mut [u8]>. Sequences of 1..12 calls with buffer lengths {0,1,2,7,8,9,15,16,17,24,100,300,4096} on the in-memory adapters and on File, BorrowedFd, UnixStream, OwnedFd over pipes, TcpStream over loopback (reader and writer roles); descriptors on which even an empty transfer has an effect or fails - datagram sockets (writer and reader side), files opened for the other direction, a stream socket whose write side was shut down, pipes without reader / writer - with buffer lengths {0,0,1,2,7,8,9,64}, compared by result and by what the peer receives. distinct key = (adapter, call, buffer-vs-available class, side of the 8-byte threshold, call index, std outcome); all non-trivial",
+     rule="cases = (adapter, call sequence). Grid (complete): stream/sink length 0..20 x position {0,mid,len-1,len,len+1,u64::MAX-3,u64::MAX} x buffer length 0..20 x {up-to, exact} plus a second call, for &[u8], Cursor<&[u8]>, Cursor<Vec<u8>>, &mut [u8], Vec<u8>, Cursor<&mut [u8]>. Sequences of 1..12 calls with buffer lengths {0,1,2,7,8,9,15,16,17,24,100,300,4096} on the in-memory adapters and on File, BorrowedFd, UnixStream, OwnedFd over pipes, TcpStream over loopback (reader and writer roles); descriptors on which even an empty transfer has an effect or fails - datagram sockets (writer and reader side), files opened for the other direction, a stream socket whose write side was shut down, pipes without reader / writer - with buffer lengths {0,0,1,2,7,8,9,64}, compared by result and by what the peer receives; non-blocking stream sockets with exact forms that cannot complete (library call on its own thread, 20 s watchdog); Stdout in a forked child whose descriptor 1 is a pipe. distinct key = (adapter, call, buffer-vs-available class, side of the 8-byte threshold, call index, std outcome); all non-trivial",
      exhaustive_note="the in-memory adapter grid (lengths 0..20, 7 cursor positions, both call forms, two consecutive calls)",
      assumptions=["the installed std is the reference (differential, so it tracks the toolchain)", "stream position and buffer contents after a FAILED exact call are unspecified by std and are not compared (only the error kind and containment are)", "TcpStream is driven over loopback (reads only request what is already queued, since a socket may legally return short); the Stdout adapter shares the raw-fd write path and is not driven (it would write into the monitor's own protocol stream)"],
      level_text="Differential runtime oracle against std::io, complete on a small grid and sampled on sequences incl. real descriptors; held-on-observed.",
@@ -337,7 +337,7 @@ FLOORS["C13"] = {"evaluations": 30_000, "distinct_nontrivial": 300, "fd_sequence
 prop("C14", level="fault_enumeration",
      title="Stream transfers lose or duplicate nothing under short I/O, EINTR and errors",
      technique="fault enumeration with a conservation oracle over the event log of a scripted stream: every script over {full, short-1, short-3, zero, EINTR, EINTRx3, EIO, EWOULDBLOCK} up to a bounded length is executed against read_volatile_from / read_exact_volatile_from / write_volatile_to / write_all_volatile_to on a slice, a region, a guest range spanning two regions and one ending in a hole; real descriptors are driven with the same scripts through link-time interposed read(2)/write(2)",
-     rule="cases = (script, entry point, target, count). Enumerated completely: all scripts of length <= 3 (585) in the quick tier, <= 4 (4681) in the thorough tier x 4 entry points x 4 targets x counts {0,1,7,8,9,run-1,run,run+1}. Plus random scripts of length 4..12, long runs (slice, region and guest ranges with more than 64 KiB inside one region; counts 0xffff, 0x10000, 0x10001, run-1, run, run+1, random) and descriptor replays (file source / file sink with the interposer returning short counts, 0, EINTR, EIO, EAGAIN). Checks per execution: consumed bytes are stored in order at consecutive guest addresses (source bytes carry their stream position), bytes handed to the sink are the next guest bytes and every offered buffer starts there, nothing outside the transferred prefix changes, EINTR is never reported and always retried, the first hard error ends the transfer and is reported, exact forms are Ok iff count bytes moved, up-to forms return the bytes moved, PartialBuffer carries (count, moved). distinct key = (entry point, target, script, count class, outcome class); non-trivial = non-empty script",
+     rule="cases = (script, entry point, target, count). Enumerated completely: all scripts of length <= 3 (585) in the quick tier, <= 4 (4681) in the thorough tier x 4 entry points x 4 targets x counts {0,1,7,8,9,run-1,run,run+1}. Plus random scripts of length 4..12, long runs (slice, region and guest ranges with more than 64 KiB inside one region; counts 0xffff, 0x10000, 0x10001, run-1, run, run+1, random), storms of 2^17 + 3 consecutive interruptions (at the start and after partial progress, every entry point and target) and descriptor replays (file source / file sink with the interposer returning short counts, 0, EINTR, EIO, EAGAIN). Checks per execution: consumed bytes are stored in order at consecutive guest addresses (source bytes carry their stream position), bytes handed to the sink are the next guest bytes and every offered buffer starts there, nothing outside the transferred prefix changes, EINTR is never reported and always retried, the first hard error ends the transfer and is reported, exact forms are Ok iff count bytes moved, up-to forms return the bytes moved, PartialBuffer carries (count, moved). distinct key = (entry point, target, script, count class, outcome class); non-trivial = non-empty script",
      exhaustive_note="all fault scripts up to length 3 (quick) / 4 (thorough) over an 8-letter alphabet on 4 targets x 4 entry points x 8 counts",
      assumptions=["scripts are bounded in length; after the script the stream behaves normally (full transfers)", "guest-level write_volatile_to uses write-all per region, so a zero-length accept surfaces as WriteZero there (accepted)", "a hard error after partial progress makes the up-to forms return the error (accepted: 'any other stream error ends the transfer and is reported')"],
      level_text="Complete enumeration of bounded fault scripts with an offline conservation check per execution, plus descriptor-level replay through an in-process syscall interposer.",
@@ -362,7 +362,7 @@ FLOORS["C14"] = {"executions_enumerated": 70_000, "fd_replays": 500, "distinct_n
 prop("C18", level="exploration",
      title="Zero-length accesses are successful no-ops at every layer",
      technique="matrix monitor: (entry point x layer x address class x container x zero-sized type) enumerated completely; each cell runs under catch_unwind with a byte frame and a dirty-bitmap frame around it; GuestMemoryMmap with dirty tracking and MockMemory (default trait methods, region at 2^64-1) at guest level, GuestRegionMmap / MockRegion at region level, arena slices (empty, null-based empty, 1 byte, odd alignment, with byte-granular bitmap) and region slices at slice level; debug, release and Xen builds (Xen-UNIX, and through the emulated devices: on-demand grant, advance-mapped grant and foreign regions)",
-     rule="cells = entry points {write/read/write_slice/read_slice with empty buffers; write_obj/read_obj, get_ref.load/store, get_array_ref{copy_to,copy_from,load,store,ref_at} (n=0,1,5), copy_to/copy_from for [u8;0],[u16;0],[u64;0],[u128;0]; copy_to/copy_from with empty buffers of u8/u32/u64; empty slice-to-slice copies; zero-count read_volatile_from/read_exact_volatile_from/write_volatile_to/write_all_volatile_to with slice, cursor, Vec and file streams, including sources with nothing left and sinks with no room (empty &[u8] / &mut [u8], cursors positioned at the start, at the end, past the end and at u64::MAX - the cursor must not move)} x layers {slice, region, guest} x address classes {first/inside/last byte of each region, one before, one past, hole, 0, 2^63, 2^64-1; offsets 0, inside, last, len, len+1, 2^63, usize::MAX} x 7 fixed layouts (single, at 0, adjacent, hole, near top, top [mock], 1-byte regions) + random layouts. Every cell is distinct and non-trivial; judged = the statement pins it (empty-buffer / zero-sized-object forms at any address; zero-count stream forms and zero-sized element accessors at addresses valid for a non-empty access), others are recorded as notes",
+     rule="cells = entry points {write/read/write_slice/read_slice with empty buffers; write_obj/read_obj, get_ref.load/store, get_array_ref{copy_to,copy_from,load,store,ref_at} (n=0,1,5), copy_to/copy_from for [u8;0],[u16;0],[u64;0],[u128;0]; copy_to/copy_from with empty buffers of u8/u32/u64; empty slice-to-slice copies; zero-count read_volatile_from/read_exact_volatile_from/write_volatile_to/write_all_volatile_to with slice, cursor, Vec and file streams, including sources with nothing left and sinks with no room (empty &[u8] / &mut [u8], cursors positioned at the start, at the end, past the end and at u64::MAX - the cursor must not move)} x layers {slice, region, guest} x address classes {first/inside/last byte of each region, one before, one past, hole, 0, 2^63, 2^64-1; offsets 0, inside, last, len, len+1, 2^63, usize::MAX} x 7 fixed layouts (single, at 0, adjacent, hole, near top, top [mock], 1-byte regions) + random layouts; zero-sized element copies with buffers of isize::MAX, isize::MAX+1 and usize::MAX elements. Every cell is distinct and non-trivial; judged = the statement pins it (empty-buffer / zero-sized-object forms at any address; zero-count stream forms and zero-sized element accessors at addresses valid for a non-empty access), others are recorded as notes",
      exhaustive_note="the complete matrix over the 7 fixed layouts and 10 containers",
      assumptions=["the element count returned by copy_to for zero-sized elements is not judged", "zero-count stream transfers at unmapped addresses are recorded, not judged"],
      level_text="Complete enumeration of the zero-length matrix with result, panic and frame oracles; held-on-observed.",
@@ -388,8 +388,8 @@ FLOORS["C18"] = {"evaluations": 50_000, "distinct_nontrivial": 5000}
 prop("C15", level="exploration",
      title="Region construction accepts exactly the safe requests and builds what was asked",
      technique="predicate-model monitor over construction grids with an in-process syscall interposer: Ok/Err and attributes compared with the statement's predicate; mmap/munmap event balance and /proc/self/maps prove that a failed construction leaves nothing mapped and that a successful one issued exactly the requested mapping; pread/pwrite coherence for MAP_SHARED file regions; Xen build: all mapping-type flag combinations against an emulated grant/privcmd device",
-     rule="cases = construction requests. std build: check_file_offset grid (6 file lengths x 9 offsets x 6 sizes), MmapRegion::build / MmapRegionBuilder grid (5 anonymous flag words incl. MAP_FIXED x 5 sizes x 3 prots; 4 file flag words x 6 file lengths x 6 offsets incl. unaligned and near u64::MAX x 7 sizes around end-of-file and usize::MAX), build_raw with 11 pointer offsets x 4 sizes over an external mapping (never unmapped by the library), GuestRegionMmap::new with base+size in 2^64-2..2^64+2, from_range with files, random requests. Xen build: 32 low flag-bit combinations + 8 high-bit words x {file present, absent} x offsets {0,1,4096} x 2 sizes x 4 mmap flag/protection requests {default, MAP_SHARED + PROT_READ, MAP_SHARED|MAP_FIXED, MAP_PRIVATE|MAP_FIXED|MAP_NORESERVE} through MmapRegion::from_range with the ioctl emulator (a region that is accepted must report the requested flags and protection and never MAP_FIXED), new_unix around end-of-file. distinct key = (constructor, flag word, prot, end-vs-EOF relation, offset class, predicate clause / outcome); OS refusals (EINVAL/ENOMEM/EBADF for requests the predicate calls safe) are counted as trivial, not judged",
-     exhaustive_note="the listed grids are enumerated completely; Xen: every combination of the five low mapping-type bits",
+     rule="cases = construction requests. std build: check_file_offset grid (6 file lengths x 9 offsets x 6 sizes), MmapRegion::build / MmapRegionBuilder grid (5 anonymous flag words incl. MAP_FIXED x 5 sizes x 3 prots; 4 file flag words x 6 file lengths x 6 offsets incl. unaligned and near u64::MAX x 7 sizes around end-of-file and usize::MAX), build_raw with 11 pointer offsets x 4 sizes over an external mapping (never unmapped by the library), GuestRegionMmap::new with base+size in 2^64-2..2^64+2, from_range with files, random requests. Xen build: 32 low flag-bit combinations + 8 high-bit words x {file present, absent} x offsets {0,1,4096} x 2 sizes x 4 mmap flag/protection requests {default, MAP_SHARED + PROT_READ, MAP_SHARED|MAP_FIXED, MAP_PRIVATE|MAP_FIXED|MAP_NORESERVE}; the public flag predicates (is_valid, is_unix, is_grant, is_foreign, mmap_in_advance) against the same reading of the bits through MmapRegion::from_range with the ioctl emulator (a region that is accepted must report the requested flags and protection and never MAP_FIXED), new_unix around end-of-file. distinct key = (constructor, flag word, prot, end-vs-EOF relation, offset class, predicate clause / outcome); OS refusals (EINVAL/ENOMEM/EBADF for requests the predicate calls safe) are counted as trivial, not judged",
+     exhaustive_note="the listed grids are enumerated completely; Xen: every combination of the five low mapping-type bits; a block device (loop device over a 1 MiB image, when /dev/loop-control is usable) as backing file: 8 requests inside / past its end",
      assumptions=["requests the predicate calls safe but the kernel refuses (size 0, unaligned file offset, exotic prot/flags) are 'OS refused': counted, not judged", "base+size == 2^64 is recorded, not judged", "Xen devices are emulated through the interposed ioctl(2): index/offset contract only"],
      level_text="Predicate oracle + kernel-level event balance over completely enumerated request grids; held-on-observed.",
      level_note="The interposer sees the mmap/munmap calls issued through the libc crate (all of vm-memory's); /proc/self/maps is the independent cross-check.",
@@ -413,7 +413,7 @@ FLOORS["C15"] = {"constructed_ok": 200, "refused_as_required": 800, "coherence_c
 prop("C17", level="exploration",
      title="Pointer guards span their accessor; on-demand mappings cover every access",
      technique="guard-extent monitor (all builds) + window monitor for on-demand Xen grant regions: the grant device is emulated through the interposed ioctl(2) (file offset = guest address), so every map/unmap request and every mmap/munmap of a temporary window is logged; per operation the touched byte range must lie inside the union of the windows requested during it, windows must be released in the right order (munmap, then unmap ioctl) with nothing left in /proc/self/maps, and the data must appear in the emulator file at the guest address; unguarded accessors run alone in forked children",
-     rule="Part A: ptr_guard/ptr_guard_mut of slices, typed refs, array refs (+ to_slice, ref_at) for 8 element types of 1..16 bytes, counts {0,1,2,3,5,16,max}, through derivation chains of depth 0..3 on arena slices at every address mod 16. Part B (xen build): histories of 30 operations from a 17-entry catalogue (region write/read/write_obj/read_obj, read_volatile_from slice/cursor/file, write_volatile_to, slice write/read, typed refs of 1..16 bytes, element arrays of 1..16-byte elements copy_from/copy_to/load/store, copy_from<u32>/<u8>, explicitly held guards, derived sub-slices, guest-level write+read, zero-length forms) with offsets at page starts, just before page ends, crossing one and two page boundaries, on GRANT|NO_ADVANCE_MAP (50%), advance-mapped GRANT, FOREIGN and Xen-UNIX regions (guest base with and without bit 63); construction and drop balance for every kind. distinct key = (operation, region kind, pages spanned, in-page offset class) and (guard kind, element type, count); all non-trivial",
+     rule="Part A: ptr_guard/ptr_guard_mut of slices, typed refs, array refs (+ to_slice, ref_at) for 8 element types of 1..16 bytes, counts {0,1,2,3,5,16,max}, through derivation chains of depth 0..3 on arena slices at every address mod 16. Part B (xen build): histories of 30 operations from a 17-entry catalogue (region write/read/write_obj/read_obj, read_volatile_from slice/cursor/file, write_volatile_to, slice write/read, typed refs of 1..16 bytes, element arrays of 1..16-byte elements copy_from/copy_to/load/store, copy_from<u32>/<u8>, explicitly held guards, derived sub-slices, guest-level write+read, zero-length forms) with offsets at page starts, just before page ends, crossing one and two page boundaries, on GRANT|NO_ADVANCE_MAP (50%), advance-mapped GRANT, FOREIGN and Xen-UNIX regions (guest base with and without bit 63); construction and drop balance for every kind; every derivation / conversion of a slice (offset, subslice, both halves of split_at, array from slice, to_slice of arrays / refs / ref_at) written, read and guarded; the environment refusing to build the window (grant ioctl fails / window mmap fails) x 6 access routes in forked children: refused by error or panic, never carried out at the placeholder address. distinct key = (operation, region kind, pages spanned, in-page offset class) and (guard kind, element type, count); all non-trivial",
      assumptions=["/dev/xen/gntdev and privcmd are emulated (index = first grant reference x page size); driver-specific failure modes are out of reach", "page rounding hides an undersized window that still lies within the same pages: element arrays and offsets are chosen to cross page boundaries", "get_atomic_ref / aligned_as_ref / aligned_as_mut / Bytes::store / Bytes::load on on-demand regions are recorded known findings (see known_findings.json)"],
      level_text="Event-log oracle over the emulated grant device and the syscall interposer for thousands of accesses, plus arithmetic guard checks; held-on-observed with five recorded known findings.",
      level_note="Trusts the emulator's index/offset contract and kernel mmap semantics.",
@@ -438,7 +438,7 @@ FLOORS["C17"] = {"ondemand_windows_observed": 2000, "ondemand_and_xen_ops": 5000
 prop("C12", level="exploration",
      title="A mapping lives exactly as long as something can still reach it",
      technique="kernel-level event-log monitor: every mmap/munmap the library issues is recorded by a link-time syscall interposer while the harness keeps the owner set of every mapping (maps, derived maps, removed-region handles, clones, GuestMemoryAtomic snapshots and owned handles); after every step the observed munmaps must be exactly the mappings whose last owner just went away, with the exact (addr, len); a mapping made during a step that no resulting object owns (refused or abandoned construction) must be released again within the step with its exact extent; externally provided (build_raw) mappings are never unmapped; /proc/self/maps cross-check for named file mappings; reads through every live owner; Miri runs the same sequences on the allocation path (leak / double free / use-after-free); auxiliary compile-fail corpus for the static clause",
-     rule="cases = owner histories. Enumerated completely: every drop order (4! = 24 each) of three owner shapes - insert/remove chain {M1{A,B}, M2=M1+C, M3=M2-A, handle(A)}, replaceable map {atomic, snapshot taken before a replacement, owned snapshot taken after it, clone of the first snapshot}, clones and shared Arcs {M1{A}, clone, handle(A), M3=from_arc_regions[A,B]} over anonymous, named-file and externally provided mappings. Random sequences of 6..30 steps: create 1..3 regions into a map, insert, remove (+keep handle), clone, GuestMemoryAtomic from clone, snapshot, into_inner, replace, drop of a random owner, and refused constructions of 9 kinds (file range past end-of-file, file offset overflow, unaligned file offset, MAP_FIXED, guest base + size beyond 2^64 [consumes an already mapped region], from_ranges with an overlapping range, from_regions with overlapping regions, from_ranges whose k-th mmap fails with an injected ENOMEM, insert_region of an overlapping last-reference Arc); each kind is also run 12 times on an empty world. distinct key = (shape, drop order), (step kind, owners alive) and (refused-construction kind, balanced?); all non-trivial",
+     rule="cases = owner histories. Enumerated completely: every drop order (4! = 24 each) of three owner shapes - insert/remove chain {M1{A,B}, M2=M1+C, M3=M2-A, handle(A)}, replaceable map {atomic, snapshot taken before a replacement, owned snapshot taken after it, clone of the first snapshot}, clones and shared Arcs {M1{A}, clone, handle(A), M3=from_arc_regions[A,B]} over anonymous, named-file and externally provided mappings. Random sequences of 6..30 steps: create 1..3 regions into a map, insert, remove (+keep handle), clone, GuestMemoryAtomic from clone, snapshot, into_inner, replace, drop of a random owner, and refused constructions of 9 kinds (file range past end-of-file, file offset overflow, unaligned file offset, MAP_FIXED, guest base + size beyond 2^64 [consumes an already mapped region], from_ranges with an overlapping range, from_regions with overlapping regions, from_ranges whose k-th mmap fails with an injected ENOMEM, insert_region of an overlapping last-reference Arc); each kind is also run 12 times on an empty world. 530 anonymous regions of 2 MiB + 4 KiB x i (kept alive, so that the placements sweep every offset within a 2 MiB frame, aligned ones included), then dropped one by one. All rules are stated on the NET effect of the mmap/munmap calls of a step (pieces of address space), not on the calls: an implementation may over-allocate and trim or release in several calls. distinct key = (shape, drop order), (step kind, owners alive) and (refused-construction kind, balanced?); all non-trivial",
      exhaustive_note="all 24 drop orders of each of the three owner shapes",
      assumptions=["the interposer sees every mmap/munmap issued through the libc crate (all of vm-memory's)", "the static clause ('must not compile') is not an execution: the compile-fail corpus (10 escaping programs with compiling twins) samples it and is reported separately under coverage.static_clause_corpus"],
      level_text="Event-log oracle over exhaustively enumerated drop orders and random owner histories, with Miri as leak/UAF oracle on the allocation path; held-on-observed. The static clause is only sampled by a compile-fail corpus.",
@@ -476,7 +476,7 @@ FLOORS["C12"] = {"drop_orders_enumerated": 72, "evaluations": 5000, "distinct_no
 prop("C06", level="exploration",
      title="Aligned 1/2/4/8-byte guest accesses are never torn",
      technique="three layered monitors: (1) cfg-guarded trace hook in the byte-copy helper - for every transfer the recorded primitive accesses must tile the transfer once, ascending, aligned to their width on both sides, and an aligned 1/2/4/8-byte transfer must be exactly one access of that width, never a bulk copy; complete grid over length x guest alignment x local alignment x entry point; (2) valgrind lackey memory trace of a probe binary: between marker stores exactly one machine access of width n to the guest location; (3) black-box writer/reader tearing detector; atomic store/load round trip and refusal of every misaligned offset",
-     rule="cases = transfers. Hook grid (complete): n in 0..12 x guest address mod 8 x local address mod 8 x 29 entry points (write/read/write_slice/read_slice at slice, region and guest level; copy_from/copy_to<u8> on slices, on array refs and on array refs converted from slices; read_volatile_from(&[u8]), read_exact_volatile_from(Cursor), write_volatile_to(&mut [u8]), write_all_volatile_to(Vec); guest read_exact_volatile_from) + write_obj/read_obj of u8,u16,u32,u64,i32,usize at 8 guest alignments x 3 levels. Lackey: 35 entry points (every entry point of the hook grid, incl. the array-ref copy helpers called directly and on arrays converted from slices, the region- and guest-level buffer forms and all in-memory stream adapters, plus the whole-object and atomic forms) x {u8,u16,u32,u64} x 3 offsets on the release (quick) and debug+release (thorough) binaries. Tearing: u16/u32/u64 x {slice, region, guest} x 2*10^5 (quick) / 2*10^6 (thorough) reads each. Atomics: 6 types x 24 offsets x 3 orderings + guest level on an aligned base; 7 types x views whose base is skewed by 0..8 bytes (derived with offset / get_slice / split_at) x 16 offsets x 2 orderings for store, load and get_atomic_ref (acceptance must follow the alignment of the address; each batch runs in a forked child because a wrongly accepted misaligned reference aborts a checked build). distinct key = (entry point, direction, n, guest mod 8, local mod 8, judged-single | tiling); all non-trivial",
+     rule="cases = transfers. Hook grid (complete): n in 0..12 x guest address mod 8 x local address mod 8 x 29 entry points (write/read/write_slice/read_slice at slice, region and guest level; copy_from/copy_to<u8> on slices, on array refs and on array refs converted from slices; read_volatile_from(&[u8]), read_exact_volatile_from(Cursor), write_volatile_to(&mut [u8]), write_all_volatile_to(Vec); guest read_exact_volatile_from) + write_obj/read_obj of u8,u16,u32,u64,i32,usize at 8 guest alignments x 3 levels. Lackey: 35 entry points (every entry point of the hook grid, incl. the array-ref copy helpers called directly and on arrays converted from slices, the region- and guest-level buffer forms and all in-memory stream adapters, plus the whole-object and atomic forms) x {u8,u16,u32,u64} x 3 offsets on the release (quick) and debug+release (thorough) binaries. Tearing: u16/u32/u64 x {slice, region, guest} x 2*10^5 (quick) / 2*10^6 (thorough) reads each. Atomics: 6 types x 24 offsets x 3 orderings + guest level on an aligned base; 7 types x views whose base is skewed by 0..8 bytes (derived with offset / get_slice / split_at) x 16 offsets x 2 orderings for store, load and get_atomic_ref (acceptance must follow the alignment of the address; each batch runs in a forked child because a wrongly accepted misaligned reference aborts a checked build). Vec sinks whose spare capacity is smaller than the transfer (they must grow). distinct key = (entry point, direction, n, guest mod 8, local mod 8, judged-single | tiling); all non-trivial",
      exhaustive_note="hook grid: every (n <= 12, guest mod 8, local mod 8) for every entry point that funnels into the copy helper",
      assumptions=["on x86-64 a single mov of width n is the observable; a change that keeps one machine access but drops `volatile` at the language level is observationally identical (stated in DESIGN.md §9)", "transfers that straddle two mappings and guest addresses whose host address is not aligned are not in the judged class", "whole-object forms: the local value's address is taken from the trace (it is naturally aligned by construction)"],
      level_text="Hook-level oracle over a completely enumerated alignment grid, cross-checked at machine level (lackey) and by a concurrent tearing detector; held-on-observed.",
@@ -545,7 +545,7 @@ FLOORS["C08"] = {"schedules_explored": 220_000, "programs_exhausted": 90, "sched
 prop("C11", level="exploration",
      title="A memory-map snapshot stays whole and usable while the map is being replaced",
      technique="event-log monitor with generation tags and a logical clock: every published map is {base region, tag region whose first/last bytes encode its generation}; in half of the histories the tag region's guest address encodes the generation too (each replacement changes the layout), in the other half every generation keeps the same layout and only the backing memory changes; readers stamp a clock before memory(), updaters after replace() returns; offline checks: whole (list and tag bytes agree on one generation), stable while held (guard, clone, into_inner, across replacements), real-time order, per-reader monotonicity, in-lock counter <= 1, final generation == completed replacements, Weak handles of replaced maps die exactly when unreferenced; sequential model check over several cloned handles, oversubscribed native stress, TSan, Miri many-seeds (preempts inside lock/replace/arc-swap)",
-     rule="cases = histories. Sequential: 10..60 steps over 3 cloned handles (snapshot, owned snapshot, clone of snapshot, lock+replace deriving the next generation by remove+insert, lock+unlock, drop) with a model of the current generation and of which generations must be alive. Stress: rounds of 24 readers x 200 snapshots + 8 updaters x 40 replacements (Miri: 2+2 threads, 3/2 operations) with yields at the harness boundary. distinct key = (mode, reader action, replacements spanned while held, generation lag); non-trivial = the snapshot was held across >= 1 replacement or re-read",
+     rule="cases = histories. Sequential: 10..60 steps over 3 cloned handles (snapshot, owned snapshot, clone of snapshot, lock+replace deriving the next generation by remove+insert, a replacement issued from a destructor while the thread is unwinding from a panic (poisoned lock recovered the std way), lock+unlock, clone of a handle, clone_from between handles, further replaceable memories created from an owned snapshot, drop) with a model of the current generation and of which generations must be alive. Stress: rounds of 24 readers x 200 snapshots + 8 updaters x 40 replacements (Miri: 2+2 threads, 3/2 operations) with yields at the harness boundary. distinct key = (mode, reader action, replacements spanned while held, generation lag); non-trivial = the snapshot was held across >= 1 replacement or re-read",
      assumptions=["no hook inside src/atomic.rs / arc-swap: native runs sample schedules, the narrow windows inside replace()/lock() are reached by Miri's scheduler for small programs only", "tag bytes are written with atomic store(Release) before publishing and read with load(Acquire), so guest bytes are not a race for TSan"],
      level_text="Offline trace checks over sampled schedules (native oversubscription, TSan, Miri) plus a deterministic sequential model check; held-on-observed.",
      level_note="Schedules are sampled, not enumerated.",
